@@ -270,7 +270,7 @@ func kindRep2(c *hlib.Ctx) {
 	}
 	s := soupOfSegs(c, segs)
 	eps := math.Ldexp(1, -(4 + c.Rng.Intn(7)))
-	mode := c.Rng.Intn(4)
+	mode := c.Rng.Intn(6)
 	amp := eps / 4
 	label := "jitter<eps/4"
 	if mode == 2 {
@@ -280,6 +280,9 @@ func kindRep2(c *hlib.Ctx) {
 		label = "undamaged"
 	} else {
 		p := 0.2 + 0.6*c.Rng.Float64()
+		if mode >= 4 {
+			p, label = 0, "no-jitter"
+		}
 		for i := range s.segs {
 			for k := 0; k < 2; k++ {
 				if c.Rng.Float64() < p {
@@ -289,6 +292,45 @@ func kindRep2(c *hlib.Ctx) {
 					}
 					s.coords = append(s.coords, o.Add(model2d.XY((c.Rng.Float64()*2-1)*amp, (c.Rng.Float64()*2-1)*amp)))
 					s.segs[i][k] = len(s.coords) - 1
+				}
+			}
+		}
+	}
+	if (mode == 1 || mode >= 4) && len(s.segs) > 0 {
+		// chains of near-duplicates 0.9*eps apart around many vertices (see jitter3)
+		label += "+chain"
+		nv := len(s.coords)
+		all := c.Rng.Intn(2) == 0
+		forced := s.segs[c.Rng.Intn(len(s.segs))][0]
+		for v := 0; v < nv; v++ {
+			if v != forced && !all && c.Rng.Intn(3) != 0 {
+				continue
+			}
+			o := s.coords[v]
+			if o.X*8 != math.Floor(o.X*8) || o.Y*8 != math.Floor(o.Y*8) {
+				continue
+			}
+			d := []model2d.Coord{model2d.X(1), model2d.Y(1)}[c.Rng.Intn(2)]
+			if c.Rng.Intn(2) == 0 {
+				d = d.Scale(-1)
+			}
+			// one or two dangling segments make the chain longer than the two segment ends
+			for e := 1 + c.Rng.Intn(2); e > 0; e-- {
+				s.coords = append(s.coords, model2d.XY(-500-4*float64(len(s.coords)), -300))
+				s.segs = append(s.segs, [2]int{v, len(s.coords) - 1})
+			}
+			step := 0
+			for i := range s.segs {
+				for k := 0; k < 2; k++ {
+					if s.segs[i][k] == v {
+						off := float64((step + 1) / 2)
+						if step%2 == 0 {
+							off = -off
+						}
+						s.coords = append(s.coords, o.Add(d.Scale(0.9*eps*off)))
+						s.segs[i][k] = len(s.coords) - 1
+						step++
+					}
 				}
 			}
 		}
